@@ -22,13 +22,20 @@ def _patch_testutil():
     real = testutil.get_testing_server
 
     def get_testing_server(*a, **kw):
+        # get_server logs a failed bind before re-raising: a retried port collision with a concurrent check must
+        # not leave an EXCEPTION line in the log the scenario inspects
+        from pygopherd import logger as _logger
         for attempt in range(200):
+            cur = _logger.log
+            _logger.log = lambda msg: None
             try:
                 return real(*a, **kw)
             except OSError as e:
                 if e.errno != errno.EADDRINUSE:
                     raise
                 time.sleep(0.05 + random.random() * 0.25)
+            finally:
+                _logger.log = cur
         return real(*a, **kw)
 
     testutil.get_testing_server = get_testing_server
